@@ -98,7 +98,7 @@ def main():
     res["demo_on_clean_tree_log"] = out[-2500:]
     clean()
     # 2 patch + suite
-    rc, o = sh(f"git -C {WT} apply {patch}")
+    rc, o = sh(f"git -C {WT} apply {patch} || patch -p1 -s --no-backup-if-mismatch -d {WT} -i {patch}")
     if rc != 0:
         print("PATCH DOES NOT APPLY", o)
         res["patch_applies"] = False
@@ -120,7 +120,7 @@ def main():
     res["demo_with_change_log"] = out[-2500:]
     # 4 analysis of the changed tree (demo files removed first)
     clean()
-    sh(f"git -C {WT} apply {patch}")
+    sh(f"git -C {WT} apply {patch} || patch -p1 -s --no-backup-if-mismatch -d {WT} -i {patch}")
     evd = "/tmp/wt/confirm-evidence"
     shutil.rmtree(evd, ignore_errors=True)
     rc, o = sh(f"/verif/bin/jpverif all --repo {WT} --evidence-dir {evd}", timeout=1200)
